@@ -575,10 +575,18 @@ pub struct HumanSpan {
 
 impl HumanSpan {
     fn from_range(before: Span, after: Span) -> Self {
+        let column_start = before.get_column();
+        let column_end = if after.location_line() == before.location_line() {
+            after.get_column()
+        } else {
+            // The construct continues on a later line: the span covers the rest of its first line.
+            let fragment: &str = before.fragment();
+            column_start + fragment.find('\n').unwrap_or(fragment.len())
+        };
         Self {
             line: before.location_line() as usize,
-            column_start: before.get_column(),
-            column_end: after.get_column(),
+            column_start,
+            column_end,
         }
     }
 
